@@ -27,6 +27,9 @@ ASSUMPTIONS = ["the realistic native slave (lib/native.py) only shows behaviour 
                "violations are confirmed on stock migen.sim before being reported; the first case of every shard is compared cycle by cycle on both simulators"]
 
 NONTRIVIAL = {"consumer_stalled_with_full_reservation", "minimal_fifo_depth", "enable_dropped_with_reads_in_flight", "producer_refused_by_full_fifo"}
+# classes that must occur in every run (else harness error: vacuous generator)
+REQUIRED_CLASSES = ["consumer_stalled_with_full_reservation", "stalled_100_cycles_with_full_reservation", "minimal_fifo_depth", "enable_dropped_with_reads_in_flight",
+                    "producer_refused_by_full_fifo", "real_core_roundtrip"]
 DEPTHS = [1, 2, 3, 4, 5, 7, 8, 9, 15, 16, 17, 31, 32]
 WIDTHS = [32, 8, 64, 128, 16]
 # shards per (kind, port): the native reader is where the property's risk is (unconditional read strobes)
